@@ -1,9 +1,9 @@
 (** C13 model: the transform code of the OTLP exporters and of the Zipkin exporter as
     executable Gallina functions from abstract telemetry to the abstract protobuf tree
-    (definitions only).  Follows the code AS IT IS, recorded defects included:
+    (definitions only).  Follows the code AS IT IS, recorded defects included
+    (F-C13-1 link tracestate and F-C13-2 log dropped count are repaired in /repo, commits fd654da and
+    c7bf84f, and modelled in their fixed form):
 
-    - tracetransform.links does not set Span.Link.trace_state              (F-C13-1)
-    - transform.LogRecord does not set dropped_attributes_count            (F-C13-2)
     - Spans / ResourceLogs key resource groups by Resource.Equivalent(), i.e. by the
       attribute set only: the schema URL of the first resource seen wins   (F-C13-3)
     - LogAttrValue sends a log.Value of KindEmpty as the string "INVALID"  (F-C13-4)
@@ -68,7 +68,7 @@ Definition id_if_valid (b : bytes) : bytes := if all_zero b then [] else b.
 Definition event_pb (e : event) : pb_event :=
   mkPEvent (time_nano (ev_time e)) (ev_name e) (attrs_pb (ev_attrs e)) (clamp32 (ev_dropped e)).
 Definition link_pb (l : link) : pb_link :=
-  mkPLink (ln_trace l) (ln_span l) [] (* trace_state is never set *) (attrs_pb (ln_attrs l))
+  mkPLink (ln_trace l) (ln_span l) (ln_tstate l) (attrs_pb (ln_attrs l))
           (clamp32 (ln_dropped l)) (flags_pb (ln_remote l)).
 Definition span_pb (s : span) : pb_span :=
   mkPSpan (sp_trace s) (sp_span s) (sp_tstate s) (id_if_valid (sp_parent s)) (flags_pb (sp_parent_remote s))
@@ -121,7 +121,7 @@ Definition sev_pb (s : Z) : N := if ((1 <=? s) && (s <=? 24))%Z then Z.to_N s el
 Definition lrec_pb (r : lrec) : pb_lrec :=
   mkPLrec (time_nano (lr_time r)) (time_nano (lr_observed r)) (sev_pb (lr_sev r)) (lr_sev_text r)
           (lval_pb (lr_body r)) (lattrs_pb (lr_attrs r))
-          0 (* dropped_attributes_count: "TODO" in the code *)
+          (clamp32 (lr_dropped r))
           (lr_flags r) (id_if_valid (lr_trace r)) (id_if_valid (lr_span r)) (lr_event r).
 Definition logs_pb (l : list (item lrec)) : list (pb_resource * list (pb_scope * list pb_lrec)) :=
   render lrec_pb (group l).
